@@ -130,6 +130,37 @@ type entry struct {
 	Sel  func(item pub.Tangible) (string, *mime.MediaType, bool)
 }
 
+// truthMediaType: the media type the documents themselves state, read off the world's
+// ground truth (not off servitor's selectors, which could share state between calls):
+// the link's own valid mediaType, else the default for that kind of slot.
+func truthMediaType(slot, mt string) (essence, super, sub string) {
+	isT := func(c byte) bool {
+		return c >= 'a' && c <= 'z' || c >= 'A' && c <= 'Z' || c >= '0' && c <= '9' || strings.IndexByte("!#$%&'*+-.^_`|~", c) >= 0
+	}
+	i := 0
+	for i < len(mt) && isT(mt[i]) {
+		i++
+	}
+	if i > 0 && i < len(mt) && mt[i] == '/' {
+		j := i + 1
+		for j < len(mt) && isT(mt[j]) {
+			j++
+		}
+		if j > i+1 && !strings.HasPrefix(slot, "body") {
+			return mt[:j], mt[:i], mt[i+1 : j]
+		}
+	}
+	switch slot {
+	case "video-media":
+		return "video/*", "video", "*"
+	case "actor-image":
+		return "image/*", "image", "*"
+	}
+	return "*/*", "*", "*"
+}
+
+var slotOf = map[string]string{"post:o": "link", "post:1-enter": "body", "post:2-enter": "link", "video:o": "video-media", "actor:p": "actor-image", "actor:b": "actor-image"}
+
 var entries = []entry{
 	{"post:o", postURL, "o", func(t pub.Tangible) (string, *mime.MediaType, bool) { return t.(*pub.Post).Media() }},
 	{"post:1-enter", postURL, "1\r", func(t pub.Tangible) (string, *mime.MediaType, bool) { return t.SelectLink(1) }},
@@ -259,6 +290,16 @@ func runGroup(r *ev.Report, link, mt string, hooks [][]string, only *hookCase) {
 				if len(recs) != 1 {
 					r.Violation(hookKey(c, "count"), map[string]any{"case": c, "records": len(recs), "msg": fmt.Sprintf("%d processes started for one key", len(recs))})
 					continue
+				}
+				te, tsup, tsub := truthMediaType(slotOf[e.Name], mt)
+				if wantMT == nil || wantMT.Essence != te || wantMT.Supertype != tsup || wantMT.Subtype != tsub {
+					got := "<nil>"
+					if wantMT != nil {
+						got = wantMT.Essence + "|" + wantMT.Supertype + "|" + wantMT.Subtype
+					}
+					r.Violation(hookKey(c, "media-type-of-link"), map[string]any{"case": c, "selector_says": got, "documents_say": te + "|" + tsup + "|" + tsub,
+						"msg": "the media type the item reports for this link is not the one its documents state (the hook would receive it)"})
+					wantMT = &mime.MediaType{Essence: te, Supertype: tsup, Subtype: tsub}
 				}
 				wantArgv, wantStdin := expectedArgv(hook, wantLink, wantMT)
 				if !reflect.DeepEqual(recs[0].Argv, wantArgv) {
